@@ -710,14 +710,23 @@ func (p *connectedPlayer) switchToConfigState() {
 			p.log.Error(err, "error writing bundle delimiter")
 		}
 	}
-	if err := p.BufferPacket(new(cfgpacket.StartUpdate)); err != nil {
-		p.log.Error(err, "error writing config packet")
-	}
-
 	p.pendingConfigurationSwitch = true
-	p.MinecraftConn.Writer().SetState(state.Config)
-	// Make sure we don't send any play packets to the player after update start
-	p.MinecraftConn.EnablePlayPacketQueue()
+	if sw, ok := p.MinecraftConn.(interface {
+		BufferPacketAndSetOutboundState(proto.Packet, *state.Registry) error
+	}); ok {
+		// Write the update start and hold back play packets from then on in one step,
+		// so that a packet written concurrently can not slip in between.
+		if err := sw.BufferPacketAndSetOutboundState(new(cfgpacket.StartUpdate), state.Config); err != nil {
+			p.log.Error(err, "error writing config packet")
+		}
+	} else {
+		if err := p.BufferPacket(new(cfgpacket.StartUpdate)); err != nil {
+			p.log.Error(err, "error writing config packet")
+		}
+		p.MinecraftConn.Writer().SetState(state.Config)
+		// Make sure we don't send any play packets to the player after update start
+		p.MinecraftConn.EnablePlayPacketQueue()
+	}
 
 	_ = p.Flush() // Trigger switch finally
 }
